@@ -17,6 +17,7 @@
     `process` call / a whole history, stated on the streaming run alone.
 -/
 import KiraModel.Proofs.StreamLemmas
+import KiraModel.Proofs.GenAgreeSound
 
 namespace K
 open Streaming StaticSound
